@@ -333,6 +333,9 @@ type conc struct {
 	// requests STOP_ACTIVITY that long after the START); delayA: caller A waits that long before its first request
 	autoStop string
 	delayA   time.Duration
+	// goErrorHookFails: workflow c01k, whose critical before_GO_ERROR call always fails: the watcher's gentle
+	// GO_ERROR is refused and it has to force the environment into ERROR (and into nothing else)
+	goErrorHookFails bool
 }
 
 var concs = []conc{
@@ -347,6 +350,9 @@ var concs = []conc{
 	{name: "taskdies||STOP", setup: []string{"START_ACTIVITY"}, a: []string{"STOP_ACTIVITY"}, kill: true},
 	{name: "taskdies||destroy", setup: []string{"START_ACTIVITY"}, a: []string{"destroyForce"}, kill: true},
 	{name: "taskdies-idle", setup: []string{"START_ACTIVITY"}, kill: true},
+	{name: "taskdies-idle-goerror-refused", setup: []string{"START_ACTIVITY"}, kill: true, goErrorHookFails: true},
+	{name: "taskdies||STOP-goerror-refused", setup: []string{"START_ACTIVITY"}, a: []string{"STOP_ACTIVITY"}, kill: true, goErrorHookFails: true},
+	{name: "taskdies||START-goerror-refused", a: []string{"START_ACTIVITY"}, kill: true, goErrorHookFails: true},
 	{name: "internal-error-slow-stop", setup: []string{"START_ACTIVITY"}, kill: true, internalErr: true, slowStop: true},
 	{name: "internal-error||STOP-slow", setup: []string{"START_ACTIVITY"}, a: []string{"STOP_ACTIVITY"}, kill: true, internalErr: true, slowStop: true},
 	{name: "taskdies||STOP-slow", setup: []string{"START_ACTIVITY"}, a: []string{"STOP_ACTIVITY"}, kill: true, slowStop: true},
@@ -378,7 +384,13 @@ func concScenario(c conc, q, t vrt.Bounds) *vrt.Scenario {
 				vars = map[string]string{"auto_stop_enabled": "true", "auto_stop_timeout": c.autoStop}
 			}
 			delete(coresim.CallDelay, "b-STOP_ACTIVITY")
-			s = newSysWF("c01", vars)
+			wfName := "c01"
+			delete(coresim.CallFail, "k-before_GO_ERROR")
+			if c.goErrorHookFails {
+				wfName = "c01k"
+				coresim.CallFail["k-before_GO_ERROR"] = true
+			}
+			s = newSysWF(wfName, vars)
 			if s == nil {
 				return
 			}
@@ -440,7 +452,10 @@ func concScenario(c conc, q, t vrt.Bounds) *vrt.Scenario {
 			if c.kill {
 				wg.Add(1)
 				vrt.GoFG("failure", func() {
-					for _, t := range s.w.M.AliveTasks() {
+					for k, t := range s.w.M.AliveTasks() {
+						if c.goErrorHookFails && k > 0 {
+							break // only the first of the two critical tasks dies: the other one keeps reporting states
+						}
 						if c.internalErr {
 							de := event.NewDeviceEvent(event.DeviceEventOrigin{AgentId: mesos.AgentID{Value: t.AgentID},
 								ExecutorId: mesos.ExecutorID{Value: t.ExecutorID}, TaskId: mesos.TaskID{Value: t.ID}}, occpb.DeviceEventType_TASK_INTERNAL_ERROR)
@@ -725,7 +740,10 @@ func main() {
 	coresim.GlobalSetup(coresim.WorkflowSpec{Name: "c01", Hosts: []string{"hostA"}, Calls: plain,
 		Tasks: []coresim.TaskSpec{{Name: "t1", Class: "c01t1", Mode: "direct", Critical: true, Host: "hostA"}}},
 		coresim.WorkflowSpec{Name: "c01h", Hosts: []string{"hostA"}, Calls: calls,
-			Tasks: []coresim.TaskSpec{{Name: "t1", Class: "c01t1", Mode: "direct", Critical: true, Host: "hostA"}}})
+			Tasks: []coresim.TaskSpec{{Name: "t1", Class: "c01t1", Mode: "direct", Critical: true, Host: "hostA"}}},
+		coresim.WorkflowSpec{Name: "c01k", Hosts: []string{"hostA"},
+			Calls: append(append([]string{}, plain...), fmt.Sprintf("  - name: %q\n    call:\n      func: sim.Call(%q)\n      trigger: before_GO_ERROR\n      timeout: 5s\n      critical: true\n", "k-before_GO_ERROR", "k-before_GO_ERROR")),
+			Tasks: []coresim.TaskSpec{{Name: "t1", Class: "c01t1", Mode: "direct", Critical: true, Host: "hostA"}, {Name: "t2", Class: "c01t2", Mode: "direct", Critical: true, Host: "hostA"}}})
 	scs := []*vrt.Scenario{{
 		Name: "requests-bfs", Prop: "C01", Doc: "BFS over control/destroy request histories",
 		Direct: func(r *vrt.DirectReport, tier string) {
